@@ -550,6 +550,13 @@ func main() {
 	// 1b. price lattice for the replacement rule (prices up to 2^128)
 	priceLattice(run)
 
+	// 1c. txSortedMap cache coherence: method sequences on a real txSortedMap
+	if run.Thorough() {
+		sortedMapCases(run, rng.Fork(0x5a), 4000, 40)
+	} else {
+		sortedMapCases(run, rng.Fork(0x5a), 600, 30)
+	}
+
 	// 2. random sequential histories
 	nh, maxOps := 800, 60
 	if run.Thorough() {
